@@ -229,9 +229,19 @@ def main():
       continue
     for fn in files:
       rel = os.path.relpath(os.path.join(root, fn), dest)
-      if rel not in wanted and not rel.startswith('target'):
+      if rel not in wanted and not rel.startswith('target') and rel != '.thread_local':
         os.remove(os.path.join(root, fn))
         changed += 1
+  # thread-local state in the code under test: the harness must not pool OS threads (run.sh reads this)
+  tl = False
+  for root, dirs, files in os.walk(src):
+    for fn in files:
+      if fn.endswith('.rs'):
+        s = open(os.path.join(root, fn), errors='replace').read()
+        if 'thread_local!' in s or '#[thread_local]' in s or 'LocalKey' in s:
+          tl = True
+  with open(os.path.join(dest, '.thread_local'), 'w') as f:
+    f.write('1' if tl else '0')
   print(h.hexdigest(), changed)
 
 
